@@ -125,6 +125,20 @@ class HCreateSolution(Handler):
         H1.check_returned(result, 'Container.create_solution')
         M.count('SOLN')
         if expect and expect.get('must') == 'refuse':
+            tag = expect.get('tag')
+            if tag == 'inconsistent' and pc is not None and pq is not None:
+                # recorded finding only in its specific form: the rows the implementation solves (all
+                # concentrations and the first quantity) are met, a later stated quantity is not
+                met = True
+                for s, (cval, num, den) in zip(solutes, pc):
+                    got = R.concentration(res.contents, s, num, den)
+                    if abs(got - cval) > (1e-4 + 100 * R.cfg().q / max(cval, 1e-300)) * cval:
+                        met = False
+                qv, qb = pq[0]
+                got = R.canon(solutes[0], res.contents.get(solutes[0], 0.0)) * R.per(solutes[0], qb)
+                if abs(got - qv) > 1e-4 * abs(qv):
+                    met = False
+                expect = dict(expect, tag='inconsistent:' + ('solved_rows_met' if met else 'other'))
             M.violate(['C05', 'C03'], 'SOLN', f'C05:infeasible_request_accepted:{spec}:{skind}:{expect.get("tag")}',
                       {'solutes': [s.name for s in solutes], 'solvent': H1._short(solvent), 'kwargs': kw,
                        'result': F.snap_contents(res)})
@@ -147,6 +161,17 @@ class HCreateSolution(Handler):
                       {'problems': problems, 'kwargs': kw, 'result': F.snap_contents(res)})
         amounts = [max(abs(res.contents.get(s, 0.0)), q) for s in res.contents] or [q]
         storage_rel = sum(q / x for x in amounts)
+        # concentration + quantity for >= 2 solutes is over-determined: the request is only consistent up to the
+        # concentration quanta q/c_i, and whichever rows are solved exactly the others are off by about that much
+        overdet = 0.0
+        if pc is not None and pq is not None and n >= 2:
+            overdet = 100 * sum(q / max(cv, 1e-300) for cv, _, _ in pc)
+        if container_solvent:
+            # observer quanta: the solvent container's effective molar mass and density are taken from its total
+            # moles rounded to q *mol* and its volume rounded to q *mL*
+            mol_c = R.measure(solvent.contents, 'mol')
+            ml_c = R.measure(solvent.contents, 'L') * 1000
+            overdet += K * (q / max(mol_c, 1e-300) + q / max(ml_c, 1e-300))
         # each stated concentration, in its own unit
         if pc is not None:
             for s, (cval, num, den), cstr in zip(solutes, pc, concs):
@@ -156,7 +181,7 @@ class HCreateSolution(Handler):
                               {'concentration': cstr, 'solute': s.name, 'result': F.snap_contents(res)})
                     continue
                 got = R.concentration(res.contents, s, num, den)
-                rel_tol = K * (q / cval + storage_rel) + 1e-8
+                rel_tol = K * (q / cval + storage_rel) + 1e-8 + overdet
                 ok = M.ratio('SOLN.conc', got, cval, rel_tol * cval)
                 if not ok and solvent_holds_solute:
                     # the stated concentration may be read as "of the solute added"; three-valued
@@ -179,7 +204,7 @@ class HCreateSolution(Handler):
                               {'quantity': qstr, 'solute': s.name})
                     continue
                 got_total = R.canon(s, res.contents.get(s, 0.0)) * R.per(s, qb)
-                tol = K * (abs(R.stored_quantum_in(s, qb)) * 2 + H1.request_quantum(qb)) + 1e-8 * abs(qv)
+                tol = K * (abs(R.stored_quantum_in(s, qb)) * 2 + H1.request_quantum(qb)) + (1e-8 + overdet) * abs(qv)
                 ok = M.ratio('SOLN.quantity', got_total, qv, tol)
                 if not ok and solvent_holds_solute:
                     added = res.contents.get(s, 0.0) - _aliquot_amount(solvent, solv_after, s)
@@ -193,7 +218,7 @@ class HCreateSolution(Handler):
         if pt is not None:
             tv, tb = pt
             got = R.measure(res.contents, tb)
-            tol = K * (H1.storage_noise_in(res.contents, tb) * 2 + H1.request_quantum(tb, res.contents)) + 1e-8 * abs(tv)
+            tol = K * (H1.storage_noise_in(res.contents, tb) * 2 + H1.request_quantum(tb, res.contents)) + (1e-8 + overdet) * abs(tv)
             if not M.ratio('SOLN.total', got, tv, tol):
                 M.violate(['C05'], 'SOLN', f'C05:total_quantity_not_met:{tb}:{skind}',
                           {'total_quantity': total, 'target': tv, 'unit': tb, 'got': got, 'tol': tol,
@@ -299,9 +324,16 @@ class HCreateSolutionFrom(Handler):
                        'solvent': H1._short(solvent), 'quantity': quantity, 'new': F.snap_contents(new)})
             return
         bad = False
+        # observer quanta: the stock's (and a solvent container's) molarity is read through moles rounded to q *mol*
+        # and a volume rounded to q *mL*
+        def obs_rel(c):
+            mol_s = R.canon(solute, c.contents.get(solute, 0.0)) if not R.is_enzyme(solute) else 0.0
+            ml = R.measure(c.contents, 'L') * 1000
+            return (q / mol_s if mol_s > 0 else 0.0) + (q / ml if ml > 0 else 0.0)
+        rel_obs = K * (obs_rel(source) + (obs_rel(solvent) if container_solvent else 0.0))
         # total
         got_total = R.measure(new.contents, qb)
-        tol = K * (H1.storage_noise_in(new.contents, qb) * 3 + H1.request_quantum(qb, new.contents) * 3) + 1e-7 * abs(qv)
+        tol = K * (H1.storage_noise_in(new.contents, qb) * 3 + H1.request_quantum(qb, new.contents) * 3) + (1e-7 + rel_obs) * abs(qv)
         if not M.ratio('FROM.total', got_total, qv, tol):
             bad = True
             M.violate(['C12'], 'FROM', f'C12:total_quantity_not_met:q={qb}:{skind}',
@@ -312,7 +344,7 @@ class HCreateSolutionFrom(Handler):
         if R.per(solute, num) != 0 and den != 'U' and cval > 0:
             got_c = R.concentration(new.contents, solute, num, den)
             amounts = [max(abs(x), q) for x in new.contents.values()] or [q]
-            rel_tol = K * (q / cval + sum(q / x for x in amounts) * 2) + 1e-6
+            rel_tol = K * (q / cval + sum(q / x for x in amounts) * 2) + 1e-6 + rel_obs
             if not M.ratio('FROM.conc', got_c, cval, rel_tol * cval):
                 bad = True
                 M.violate(['C12'], 'FROM', f'C12:concentration_not_met:{num}/{den}:q={qb}:{skind}',
